@@ -12,6 +12,7 @@ from .expr import canon, pretty
 from .effects import Effects
 
 HOLDS, VIOLATION, UNKNOWN = "HOLDS", "VIOLATION", "UNKNOWN"
+OUT = os.environ.get("CQVERIF_OUT", os.path.join(VERIF, "evidence"))
 
 
 class Ctx:
@@ -149,7 +150,7 @@ class Report:
                 out.write("  %s: %s %s [%s] %s: %s\n" % (tag, i["site"], i["function"] or "", i["rule"], i["what"], i["reason"]))
         for i, kf in known_hits:
             out.write("KNOWN-FINDING: property=%s %s\n" % (self.pid, kf.get("what", i["what"])))
-        replay_dir = os.path.join(VERIF, "evidence", "replay")
+        replay_dir = os.path.join(OUT, "replay")
         replays = []
         if os.path.isdir(replay_dir):
             for fn in os.listdir(replay_dir):
@@ -198,8 +199,8 @@ class Report:
             "violations": len(viol),
         }
         ev["coverage"].update(self.extra)
-        os.makedirs(os.path.join(VERIF, "evidence"), exist_ok=True)
-        with open(os.path.join(VERIF, "evidence", "%s.json" % self.pid), "w") as fo:
+        os.makedirs(OUT, exist_ok=True)
+        with open(os.path.join(OUT, "%s.json" % self.pid), "w") as fo:
             json.dump(ev, fo, indent=1)
         out.write("[%s] %d instances: %d hold, %d known finding(s), %d violation(s), %d unknown; %.1fs -> exit %d\n" % (
             self.pid, len(self.instances), nh, len(known_hits), len(viol), len(unknown), wall, code))
@@ -227,7 +228,7 @@ def broken(pid, tier, msg, seed=0):
           "coverage": {"explanation": "analysis broken, no verdict: " + msg[:2000], "obligations": 0, "discharged": 0,
                        "evaluations": 1, "distinct_nontrivial": 2, "samples": [msg[:500]]},
           "wall_s": 0.0, "violations": 0}
-    os.makedirs(os.path.join(VERIF, "evidence"), exist_ok=True)
-    with open(os.path.join(VERIF, "evidence", "%s.json" % pid), "w") as fo:
+    os.makedirs(OUT, exist_ok=True)
+    with open(os.path.join(OUT, "%s.json" % pid), "w") as fo:
         json.dump(ev, fo, indent=1)
     return 2
